@@ -1,39 +1,70 @@
 ---------------------------- MODULE ResourcePoolP_trace ----------------------------
 (* Trace validation, P-level: resource-level events recorded from the real util.ResourcePool *)
-(* (harness/util/resourcepool_test.go) are replayed through ResourcePoolP with every clause   *)
-(* of property C24 enabled as an invariant.  Many traces are concatenated; field t is the     *)
-(* trace id, every line carries max (the pool's maximum capacity).                            *)
-EXTENDS ResourcePoolP, Sequences, TLC, Json
+(* (harness/util/resourcepool_test.go) are run through ResourcePoolP; after every event each  *)
+(* clause of property C24 is evaluated and the clauses that failed are collected per trace.   *)
+(* Many traces are concatenated (field t = trace id, every line carries max = the pool's      *)
+(* maximum capacity).  One verdict line is printed per trace:                                 *)
+(*    <<"CASE", {"t": id, "viol": [clause names], "at": index of the first offending event}>> *)
+(* so a run with hundreds of rejected traces (known findings) is still examined completely.   *)
+(* The POSTCONDITION checks that every line was consumed.                                     *)
+EXTENDS ResourcePoolP, Sequences, SequencesExt, TLC, Json
 
 Trace == ndJsonDeserialize("trace.ndjson")
 
-VARIABLES l, tid
+VARIABLES l,      \* next line
+          tid,    \* trace being consumed
+          viol,   \* clauses of the property violated so far in this trace
+          at,     \* index (within the trace) of the first offending event, 0 = none
+          k       \* number of events of this trace consumed
 
-TraceInit == PInit(Trace[1].max) /\ l = 1 /\ tid = Trace[1].t
+tvars == <<pvars, l, tid, viol, at, k>>
+
+TraceInit == PInit(Trace[1].max) /\ l = 1 /\ tid = Trace[1].t /\ viol = {} /\ at = 0 /\ k = 0
 
 Boundary == l <= Len(Trace) /\ Trace[l].t # tid
 InTrace  == l <= Len(Trace) /\ ~Boundary
-IsEv(e)  == InTrace /\ Trace[l].ev = e /\ l' = l + 1
+IsEv(e)  == InTrace /\ Trace[l].ev = e
 
-TGot    == IsEv("Got") /\ Got(Trace[l].c, Trace[l].r)
-TPut    == IsEv("Put") /\ PutBegin(Trace[l].c, Trace[l].r)
-TPutEnd == IsEv("PutDone") /\ PutEnd(Trace[l].c, Trace[l].ok)
-TGetErr == IsEv("GetErr") /\ GetErr(Trace[l].c)
-TPanic  == IsEv("Panic") /\ OpPanic
-TQuiet  == IsEv("Quiescent") /\ Quiet(Trace[l].idle, Trace[l].cap)
-TReset  == /\ Boundary
-           /\ maxcap' = Trace[l].max /\ held' = {} /\ putting' = {}
-           /\ illegalPut' = FALSE /\ putFailed' = FALSE /\ opPanic' = FALSE /\ quietBad' = FALSE
-           /\ l' = l /\ tid' = Trace[l].t
+Event == \/ IsEv("Got") /\ Got(Trace[l].c, Trace[l].r)
+         \/ IsEv("Put") /\ PutBegin(Trace[l].c, Trace[l].r)
+         \/ IsEv("PutDone") /\ PutEnd(Trace[l].c, Trace[l].ok)
+         \/ IsEv("GetErr") /\ GetErr(Trace[l].c)
+         \/ IsEv("Panic") /\ OpPanic
+         \/ IsEv("Quiescent") /\ Quiet(Trace[l].idle, Trace[l].cap)
 
-TraceNext == \/ (TGot \/ TPut \/ TPutEnd \/ TGetErr \/ TPanic \/ TQuiet) /\ UNCHANGED tid
-             \/ TReset
+Failing == (IF P_NoOverAllocation' THEN {} ELSE {"P_NoOverAllocation"})
+      \cup (IF P_OneHolder' THEN {} ELSE {"P_OneHolder"})
+      \cup (IF P_PutNeverFails' THEN {} ELSE {"P_PutNeverFails"})
+      \cup (IF P_QuiescentAccounting' THEN {} ELSE {"P_QuiescentAccounting"})
+      \cup (IF P_NoOtherPanic' THEN {} ELSE {"P_NoOtherPanic"})
+      \cup (IF P_DriverDiscipline' THEN {} ELSE {"P_DriverDiscipline"})
 
-TraceSpec == TraceInit /\ [][TraceNext]_<<pvars, l, tid>>
+TEvent == /\ Event
+          /\ l' = l + 1 /\ k' = k + 1
+          /\ viol' = viol \cup Failing
+          /\ at' = IF at = 0 /\ Failing # {} THEN k + 1 ELSE at
+          /\ UNCHANGED tid
+
+Verdict == PrintT(<<"CASE", ToJson([t |-> tid, viol |-> SetToSeq(viol), at |-> at, n |-> k])>>)
+
+TReset == /\ Boundary
+          /\ Verdict
+          /\ maxcap' = Trace[l].max /\ held' = {} /\ putting' = {}
+          /\ illegalPut' = FALSE /\ putFailed' = FALSE /\ opPanic' = FALSE /\ quietBad' = FALSE
+          /\ l' = l /\ tid' = Trace[l].t /\ viol' = {} /\ at' = 0 /\ k' = 0
+
+TEnd == /\ l = Len(Trace) + 1
+        /\ Verdict
+        /\ l' = l + 1
+        /\ UNCHANGED <<pvars, tid, viol, at, k>>
+
+TraceNext == TEvent \/ TReset \/ TEnd
+
+TraceSpec == TraceInit /\ [][TraceNext]_tvars
 
 NumResets == Cardinality({i \in 2..Len(Trace) : Trace[i].t # Trace[i-1].t})
 TraceAccepted ==
     LET d == TLCGet("stats").diameter IN
-    IF d - 1 = Len(Trace) + NumResets THEN TRUE
+    IF d - 1 = Len(Trace) + NumResets + 1 THEN TRUE
     ELSE Print(<<"TRACE-REJECTED", d, Len(Trace), NumResets>>, FALSE)
 ===================================================================================
